@@ -804,6 +804,10 @@ class Interp:
         return self.binop(node.op, self.ev(node.left, fr), self.ev(node.right, fr), node)
 
     def binop(self, op, l, r, node):
+        if isinstance(l, Join) and all(isinstance(v, Aff) for v in l.vals) and isinstance(r, (Aff, Join)):
+            return Join([self.binop(op, v, r, node) for v in l.vals])
+        if isinstance(r, Join) and all(isinstance(v, Aff) for v in r.vals) and isinstance(l, Aff):
+            return Join([self.binop(op, l, v, node) for v in r.vals])
         if isinstance(l, Aff) and isinstance(r, Aff):
             if isinstance(op, ast.Add):
                 return l + r
@@ -1146,6 +1150,14 @@ class Interp:
                 return Summ(Bnd([args[1] - Aff.const(1)], args[0]))
             return Summ(UNK)
         if name in ("min", "max"):
+            # the result is one of the operands: every consumer must cope with each alternative
+            vals = list(args)
+            if len(vals) == 1 and isinstance(vals[0], Tup):
+                vals = list(vals[0].items)
+            if vals and all(isinstance(v, Aff) for v in vals):
+                if all(v.is_const() for v in vals):
+                    return Aff.const((min if name == "min" else max)(v.k for v in vals))
+                return Join(vals)
             return UNK
         if name == "all" or name == "any":
             return UNK
